@@ -24,6 +24,22 @@ def documented_ranges(repo):
                     lo = int(rm.group(1), 0) if rm else 0
                     hi = int(rm.group(2), 0) if rm else 255
                     out[(fn, name)] = (lo, hi, int(dm.group(1)) if dm else None, os.path.relpath(path, repo))
+                    continue
+                # bit layout of one byte: '100HHHHH, hour indication, value range 0...23' / '01000www, ... 0=Monday, ... 6=Sunday' / '110fffff, ...'
+                bm = re.match(r"\s*([01]+)([A-Za-z])\2*\s*,", text)
+                if bm and len(re.match(r"\s*([01]+[A-Za-z]+)", text).group(1)) == 8:
+                    prefix = bm.group(1)
+                    nvar = 8 - len(prefix)
+                    base = int(prefix, 2) << nvar
+                    vm = re.search(r"value range\s+(\d+)\s*(?:\.\.\.|…)\s*(\d+)", text)
+                    enum = [int(x) for x in re.findall(r"\b(\d+)\s*=\s*[A-Z]", text)]
+                    if vm:
+                        vlo, vhi = int(vm.group(1)), int(vm.group(2))
+                    elif len(enum) >= 2:
+                        vlo, vhi = min(enum), max(enum)
+                    else:
+                        vlo, vhi = 0, (1 << nvar) - 1
+                    out[(fn, name)] = (base + vlo, base + vhi, None, os.path.relpath(path, repo))
     return out
 
 
@@ -107,6 +123,12 @@ def run(chk, w):
             chk.ok("C18-ONE", 1, {"encoder": name, "transmit_calls": len(tx), "rejections": len(rej)} if rej else None)
     chk.extra["encoders_checked"] = npaths
 
+    # ---- PRIV: concurrent senders do not share the assembly buffer
+    from . import c05
+    wire = c05.wire_append_fns(P)
+    if wire:
+        c05.priv_rule(chk, P, sorted(S.constructors), wire, "C18-PRIV")
+
     # ---- BND
     chk.rule("C18-BND", "every variable subscript of the encoders' and constructors' arrays / VLAs is inside the array")
     nb = 0
@@ -121,7 +143,7 @@ def run(chk, w):
             continue
         fa = E.analysis(f, ctor_params.get(name) or (E.param_intervals(f) if f.internal else None))
         for gep, base in acc:
-            if base[0] == "global":
+            if base[0] == "global" and P.globals.get(base[1], {}).get("const"):
                 continue
             nb += 1
             ok, detail = intervals.check_gep(fa, gep, base)
@@ -129,7 +151,7 @@ def run(chk, w):
                 chk.ok("C18-BND", 1, {"access": gep.loc(), "array": base[1]} if base[0] == "vla" and nb % 7 == 0 else None)
             else:
                 chk.violation("C18-BND", name, "%s@%s" % (base[1], _where(f, gep)), gep.loc(), "subscript of '%s' may leave the array: %s" % (base[1], detail))
-    chk.floor("encoder_array_subscripts", nb, 12)
+    chk.floor("encoder_array_subscripts", nb, 6)
     # negative index into caller buffers (data[data_size - 1] for data_size == 0)
     for name in encoders:
         f = P.functions[name]
